@@ -80,20 +80,35 @@ func emitHDL(m *procbuilder.Machine, src []string, opt bool) {
 					}
 				}
 			}
-			conf.HwOptimizations = procbuilder.SetHwOptimization(conf.HwOptimizations, procbuilder.HwOptimizations(procbuilder.OnlyDestRegs))
-			// what was recorded (queried exactly as the templates query it)
-			var parts []string
-			for _, opn := range []string{"inc", "dec", "rset", "jz"} {
+			// which of the two optimisations: a function of the program, so that a replay takes the same
+			// ones (1 = onlydestregs, 2 = onlysrcregs, 3 = both)
+			flags := 1 + (len(src)+len(strings.Join(src, "")))%3
+			if flags&1 != 0 {
+				conf.HwOptimizations = procbuilder.SetHwOptimization(conf.HwOptimizations, procbuilder.HwOptimizations(procbuilder.OnlyDestRegs))
+			}
+			if flags&2 != 0 {
+				conf.HwOptimizations = procbuilder.SetHwOptimization(conf.HwOptimizations, procbuilder.HwOptimizations(procbuilder.OnlySrcRegs))
+			}
+			// what was recorded (queried exactly as the templates query it); a flag that is off keeps
+			// every arm = every register
+			query := func(opn, set string, on bool) string {
 				var regs []string
 				for i := 0; i < 1<<uint(m.Arch.R); i++ {
-					req := rg.Requirement(bmreqs.ReqRequest{Node: node + "/opcodes:" + opn, T: bmreqs.ObjectSet, Name: "destregs", Value: procbuilder.Get_register_name(i), Op: bmreqs.OpCheck})
-					if req.Value != "false" {
+					req := rg.Requirement(bmreqs.ReqRequest{Node: node + "/opcodes:" + opn, T: bmreqs.ObjectSet, Name: set, Value: procbuilder.Get_register_name(i), Op: bmreqs.OpCheck})
+					if !on || req.Value != "false" {
 						regs = append(regs, strconv.Itoa(i))
 					}
 				}
-				parts = append(parts, opn+"="+strings.Join(regs, ","))
+				return strings.Join(regs, ",")
 			}
-			out.Line("O onlydestregs %s", strings.Join(parts, " "))
+			var parts []string
+			for _, opn := range []string{"inc", "dec", "rset", "jz", "addp", "multp", "divp"} {
+				parts = append(parts, opn+"="+query(opn, "destregs", flags&1 != 0))
+			}
+			for _, opn := range []string{"addp", "multp", "divp"} {
+				parts = append(parts, opn+"/src="+query(opn, "sourceregs", flags&2 != 0))
+			}
+			out.Line("O hwopt%d %s", flags, strings.Join(parts, " "))
 		}
 		names := map[string]string{"processor": "p0", "rom": "p0rom", "ram": "p0ram"}
 		files := map[string]string{
@@ -169,7 +184,8 @@ func build(s archSpec) (*procbuilder.Machine, error) {
 }
 
 // the co-implemented opcode set (both back-ends implement them); widths they work at
-var coImplAll = []string{"nop", "rset", "inc", "dec", "clr", "add", "mult", "div", "cpy", "j", "jz", "i2r", "r2o", "i2rw", "r2owa"}
+var coImplAll = []string{"nop", "rset", "inc", "dec", "clr", "add", "mult", "div", "cpy", "j", "jz", "i2r", "r2o", "i2rw", "r2owa",
+	"addp", "multp", "divp"}
 var coImplSmall = []string{"and", "or", "xor", "nand", "nor", "xnor", "not", "mod"}
 
 func shape(op string) string {
@@ -235,9 +251,20 @@ func genProgram(r *common.Rng, s archSpec) []string {
 			hasRset = true
 		}
 	}
+	pool := s.ops
+	if hwOpt {
+		// the optimisations concern these opcodes: use them three times as often
+		pool = append([]string{}, s.ops...)
+		for _, o := range s.ops {
+			switch o {
+			case "addp", "multp", "divp", "inc", "dec", "jz":
+				pool = append(pool, o, o)
+			}
+		}
+	}
 	var lines []string
 	for i := 0; i < n; i++ {
-		op := s.ops[r.Intn(len(s.ops))]
+		op := pool[r.Intn(len(pool))]
 		if hasRset && i < (1<<uint(s.r)) && i < n/2 && r.Chance(3, 4) {
 			// load the registers first so that arithmetic does not just shuffle zeros
 			lines = append(lines, "rset r"+strconv.Itoa(i)+" "+genValue(r, s.rsize))
@@ -316,6 +343,24 @@ func genArch(r *common.Rng) archSpec {
 		}
 		if !has {
 			s.ops = append(s.ops, "j")
+		}
+	}
+	if hwOpt && r.Chance(2, 3) {
+		// the optimisations prune per (opcode, register): machines for them hold several of the opcodes
+		// that can be pruned and enough registers for some to stay unused
+		for _, o := range []string{"addp", "multp", "divp", "inc", "rset"} {
+			if r.Chance(3, 4) {
+				has := false
+				for _, x := range s.ops {
+					has = has || x == o
+				}
+				if !has {
+					s.ops = append(s.ops, o)
+				}
+			}
+		}
+		if s.r < 2 {
+			s.r = 2 + r.Intn(2)
 		}
 	}
 	sort.Strings(s.ops)
@@ -400,8 +445,15 @@ func dumpVM(vm *procbuilder.VM) string {
 	for i, v := range d {
 		ds[i] = strconv.Itoa(v)
 	}
-	return fmt.Sprintf("X pc=%d r=%s o=%s ov=%s ir=%s d=%s", vm.Pc, joinU(vm.Registers), joinU(vm.Outputs),
-		joinB(vm.OutputsValid), joinB(vm.InputsRecv), strings.Join(ds, ","))
+	// pipelined opcodes in their second phase (Extra_states["pipeline_<op>"] != 0), sorted by name
+	var ph []string
+	for _, n := range []string{"addp", "divp", "multp"} {
+		if v, ok := vm.Extra_states["pipeline_"+n].(uint8); ok && v != 0 {
+			ph = append(ph, n)
+		}
+	}
+	return fmt.Sprintf("X pc=%d r=%s o=%s ov=%s ir=%s d=%s ph=%s", vm.Pc, joinU(vm.Registers), joinU(vm.Outputs),
+		joinB(vm.OutputsValid), joinB(vm.InputsRecv), strings.Join(ds, ","), strings.Join(ph, ","))
 }
 
 type stim struct {
